@@ -73,16 +73,33 @@ func ctxAbortErr(e error) error {
 
 func isCtxAbort(e error) bool { return e == errAbortCanceled || e == errAbortDeadline }
 
+func isBatchKind(k int) bool { return k == kLogBatch || k == kLogBatchBare }
+
 func cancelScenario(name string, d *shapeDesc, kinds []int, deadline, before, asNode bool) Scenario {
+	return cancelScenarioRot(name, d, kinds, deadline, before, asNode, rotationOf(name))
+}
+
+// cancelScenarioRot: rot fixes which kind the first leaf gets.  Batch-node kinds may be among
+// the leaves: the context is then cancelled only inside callbacks of the OTHER nodes (what a
+// batch does when cancelled from inside is C11's subject), and their item executions always
+// succeed; the rule "no further node of the flow is started" covers them as successors.
+func cancelScenarioRot(name string, d *shapeDesc, kinds []int, deadline, before, asNode bool, rot int) Scenario {
 	var h *H
 	var root *spec
 	var menu func(h *H, c call) []answer
 	var cs *cancelState
 	body := func() {
 		if root == nil {
-			g := &shapeGen{leafKinds: kinds, counter: rotationOf(name)}
+			g := &shapeGen{leafKinds: kinds, counter: rot}
 			root = g.build(d, "r")
-			menu = cancelMenu(collectActions(root), 2)
+			base := cancelMenu(collectActions(root), 2)
+			menu = func(h *H, c call) []answer {
+				m := base(h, c)
+				if isBatchKind(c.node.kind) && c.ph == pExec {
+					return m[:1]
+				}
+				return m
+			}
 		}
 		h = newH(root)
 		h.menu = menu
@@ -126,7 +143,7 @@ func cancelScenario(name string, d *shapeDesc, kinds []int, deadline, before, as
 			return cs.at >= 0 && got.node == cs.node && got.visit == cs.visit && (got.ph == pFallback || got.ph == pPost)
 		}
 		h.onCall = func(h *H, c call) {
-			if cs.at == -1 && core.Choose(2) == 1 {
+			if cs.at == -1 && !isBatchKind(c.node.kind) && core.Choose(2) == 1 {
 				cs.at, cs.node, cs.visit = len(h.calls)-1, c.node, c.visit
 				core.Logf("cancel inside %s", c)
 				cs.ctx.CancelInline(cs.err)
@@ -216,6 +233,15 @@ func genC05(tier string) []Scenario {
 			if !deep {
 				out = append(out, cancelScenario(fmt.Sprintf("%s-before shape#%d=%s", kind, i, d), d, c05Kinds, deadline, true, i%2 == 1))
 			}
+		}
+	}
+	// batch nodes among the nodes of a flow: cancelled while one of the OTHER nodes runs, the
+	// flow must not start the batch node either (its prep / post are callbacks like any other)
+	withBatch := []int{kFuncA, kLogBatch, kBase, kLogBatchBare}
+	for _, base := range []int{1, 2, 3, 4, shDefaultEdge} {
+		for rot := 0; rot < 4; rot++ {
+			d := &shapeDesc{base: base, slot: -1}
+			out = append(out, cancelScenarioRot(fmt.Sprintf("cancel-inside with-batch-nodes shape=%s rotation=%d", d, rot), d, withBatch, false, false, rot%2 == 0, rot))
 		}
 	}
 	// cancellation arriving from ANOTHER goroutine while the run sits in a retry wait (virtual
